@@ -64,7 +64,7 @@ class Tokens(object):
         self.seg_term = self.ele_term = self.subele_term = self.repetition = None
         self.icvn = None
         self.segs = []
-        self.tail = ''          # text after the last terminator (not a segment)
+        self.tail = ''          # text after the last terminator (a last segment when it is more than white space)
 
     def delims(self):
         return (self.seg_term, self.ele_term, self.subele_term, self.repetition)
@@ -108,7 +108,12 @@ def tokenise(text, blank_only='skip'):
     pieces = text.split(t.seg_term)
     t.tail = pieces[-1]
     line = 0
-    for raw in pieces[:-1]:
+    body = pieces[:-1]
+    if t.tail.strip() != '':
+        # the input ends without a terminator: what follows the last terminator is still a segment (lossless reading);
+        # a tail of nothing but white space (line break, padding) is not
+        body = pieces
+    for raw in body:
         piece = raw.lstrip('\r\n')
         if piece == '':
             continue
